@@ -17,6 +17,7 @@
 -/
 import Mistletoe.Model.Ast
 import Mistletoe.Model.Escape
+import Mistletoe.Gen.RenderMaps
 namespace Mistletoe.Html
 open Mistletoe Mistletoe.Escape
 
@@ -30,6 +31,14 @@ structure Opts where
   processHtml : Bool := true     -- process_html_tokens
   flavor : Flavor := .html
   deriving Repr, DecidableEq, Inhabited
+
+/-- The part of the options the rendering functions read. -/
+structure Quotes where
+  dq : Bool
+  sq : Bool
+  deriving Repr, DecidableEq, Inhabited
+
+def Opts.q (o : Opts) : Quotes := ⟨o.dq, o.sq⟩
 
 /-- Output events. -/
 inductive Ev where
@@ -103,7 +112,7 @@ def rstripDollar : Str → Str
 def stripDollar (s : Str) : Str := rstripDollar (s.dropWhile (· == '$'))
 
 mutual
-def renderInline (o : Opts) : Inline → List Ev
+def renderInline (o : Quotes) : Inline → List Ev
   | .rawText c => [.text (escapeHtmlText o.dq o.sq c)]
   | .strong _ k => [.otag "strong".toList []] ++ renderInlines o k ++ [.ctag "strong".toList]
   | .emphasis _ k => [.otag "em".toList []] ++ renderInlines o k ++ [.ctag "em".toList]
@@ -129,7 +138,7 @@ def renderInline (o : Opts) : Inline → List Ev
   | .xwikiMacroStart _ => []
   | .xwikiMacroEnd _ => []
   | .linkRefDef .. => []
-def renderInlines (o : Opts) : List Inline → List Ev
+def renderInlines (o : Quotes) : List Inline → List Ev
   | [] => []
   | i :: is => renderInline o i ++ renderInlines o is
 end
@@ -145,7 +154,7 @@ def alignName : Option Nat → Str
 
 mutual
 /-- `HtmlRenderer.render` on a block token; `s` = `_suppress_ptag_stack[-1]`. -/
-def renderBlock (o : Opts) (s : Bool) : Block → List Ev
+def renderBlock (o : Quotes) (s : Bool) : Block → List Ev
   | .paragraph k _ =>
     if s then renderInlines o k else [.otag "p".toList []] ++ renderInlines o k ++ [.ctag "p".toList]
   | .heading level _ k _ =>
@@ -190,35 +199,35 @@ def renderBlock (o : Opts) (s : Bool) : Block → List Ev
   | .blankLine _ => []
   | .linkRefDefBlock _ _ => []
 /-- `render_table_row(token, is_header)`. -/
-def renderRow (o : Opts) (s : Bool) (isHeader : Bool) : Block → List Ev
+def renderRow (o : Quotes) (s : Bool) (isHeader : Bool) : Block → List Ev
   | .tableRow _ cells _ => [.otag "tr".toList [], nl] ++ renderCells o isHeader cells ++ [.ctag "tr".toList, nl]
   | _ => []
-def renderCells (o : Opts) (isHeader : Bool) : List Block → List Ev
+def renderCells (o : Quotes) (isHeader : Bool) : List Block → List Ev
   | [] => []
   | c :: cs => renderCell o isHeader c ++ renderCells o isHeader cs
 /-- `render_table_cell(token, in_header)`. -/
-def renderCell (o : Opts) (inHeader : Bool) : Block → List Ev
+def renderCell (o : Quotes) (inHeader : Bool) : Block → List Ev
   | .tableCell a k _ =>
     let tag := if inHeader then "th".toList else "td".toList
     [.otag tag [("align".toList, alignName a)]] ++ renderInlines o k ++ [.ctag tag, nl]
   | _ => []
 /-- `'\n'.join(render(child) …)`. -/
-def renderSep (o : Opts) (s : Bool) : List Block → List Ev
+def renderSep (o : Quotes) (s : Bool) : List Block → List Ev
   | [] => []
   | [b] => renderBlock o s b
   | b :: rest => renderBlock o s b ++ [nl] ++ renderSep o s rest
 /-- children each followed by `'\n'` (the quote template). -/
-def renderAfterEach (o : Opts) (s : Bool) : List Block → List Ev
+def renderAfterEach (o : Quotes) (s : Bool) : List Block → List Ev
   | [] => []
   | b :: rest => renderBlock o s b ++ [nl] ++ renderAfterEach o s rest
 /-- `''.join(map(self.render, children))`. -/
-def renderCat (o : Opts) (s : Bool) : List Block → List Ev
+def renderCat (o : Quotes) (s : Bool) : List Block → List Ev
   | [] => []
   | b :: rest => renderBlock o s b ++ renderCat o s rest
 end
 
 /-- MathJaxRenderer.mathjax_src is appended by the harness from Gen (C18); here: the document. -/
-def renderDoc (o : Opts) (d : Doc) : List Ev :=
+def renderDoc (o : Quotes) (d : Doc) : List Ev :=
   match d.kids with
   | [] => []
   | kids =>
@@ -226,7 +235,15 @@ def renderDoc (o : Opts) (d : Doc) : List Ev :=
     if (flat inner).isEmpty then [] else inner ++ [nl]
 
 /-- Output string of `HtmlRenderer(**opts).render(doc)`. -/
-def render (o : Opts) (d : Doc) : Str := flat (renderDoc o d)
+def render (o : Opts) (d : Doc) : Str := flat (renderDoc o.q d)
+
+/-- What the flavour appends to the document: `MathJaxRenderer.render_document` adds the script line. -/
+def suffix : Flavor → Str
+  | .mathjax => Gen.RenderMaps.mathjaxSrc
+  | _ => []
+
+/-- Output string of `R(**opts).render(doc)` for R in the HTML family. -/
+def renderFlavored (o : Opts) (d : Doc) : Str := render o d ++ suffix o.flavor
 
 /-! ### On which trees the Python raises -/
 
